@@ -254,6 +254,10 @@ class GaussianSmoothing2D(SameShapeTypeParameterTransform):
         return result.reshape(x.shape)
 
     def _create_gaussian_kernel(self, size: int, sigma: float) -> jax.Array:
+        if sigma == 0:
+            # zero width: the Gaussian degenerates to a single unit tap (identity); exp(-0/0) is NaN
+            return jnp.ones((size, size)) / (size * size)
+
         # Create a coordinate grid
         coords = jnp.arange(-(size // 2), size // 2 + 1)
         x, y = jnp.meshgrid(coords, coords)
